@@ -533,6 +533,55 @@ def execR (H : Hashes) : Cfg → State → List ROp → State × List RObs
 
 def idHashes : Hashes := ⟨id, id⟩
 
+/-! ### payloads that cannot be rendered
+
+  `ActionProtein.payload` is `Any`.  `_apply_gate_logic` renders payloads into strings: `str(y_out.payload)` for the
+  approval token — built BEFORE the gate branches whenever the assessor's verdict is PERMIT, under every gate logic —
+  and an f-string of the payload of the agent that stops the request (`Risk Assessor: …`, `Executor failure: …`,
+  `Executor skipped: …`).  When such a payload's `__str__` raises, `_apply_gate_logic` raises — outside the `try` of
+  `run`: after both agents were consulted and charged, before the breaker update, the cache store, the log and the
+  callbacks.  `runP` is `run` for agents whose answers carry a flag "payload can be rendered". -/
+
+/-- an agent's response together with whether its payload can be rendered (`str()` does not raise) -/
+structure RespP where
+  resp : Resp
+  payloadOk : Bool := true
+  deriving Repr, DecidableEq
+
+/-- does `_apply_gate_logic` render the executor's (`.1`) / the assessor's (`.2`) payload on verdicts `z`, `y`? -/
+def renders (g : Gate) (z y : Cls) : Bool × Bool :=
+  let approval := y == .permit
+  let zFails := z == .failure
+  let zBlocks := z == .block
+  let yBlocks := y == .block
+  match g with
+  | .and | .unanimous =>
+    if yBlocks then (false, true) else if zFails then (true, approval) else if zBlocks then (true, approval)
+    else (false, approval)
+  | .or => (false, approval)
+  | .execPrio => if yBlocks then (false, true) else (false, approval)
+  | .assessPrio => if zFails then (true, approval) else if approval then (false, true) else if yBlocks then (false, true)
+    else (false, false)
+  | .majority => (false, approval)
+
+/-- `_apply_gate_logic` raises while rendering a payload -/
+def renderFails (g : Gate) (zr yr : RespP) : Bool :=
+  match zr.resp, yr.resp with
+  | .ret z, .ret y => ((renders g z y).1 && !zr.payloadOk) || ((renders g z y).2 && !yr.payloadOk)
+  | _, _ => false
+
+/-- `CoherentFeedForwardLoop.run` for agents whose payloads may be unrenderable: when the request gets as far as
+    the gate (`Kind.gated`) and rendering fails there, what remains of `run` is the look-up phase and the two agent
+    calls — no breaker update, no cache store, no reply (`Kind.raised`). -/
+def runP (cfg : Cfg) (H : Hashes) (s : State) (p : Prompt) (zr yr : RespP) : State × Out :=
+  let r := run cfg H s p zr.resp yr.resp
+  match r.2.kind with
+  | .gated _ =>
+    if renderFails cfg.gate zr yr then
+      (callAssessor cfg (callExecutor cfg (lookup cfg H s p).1), ⟨.raised, none⟩)
+    else r
+  | _ => r
+
 /-! ### callbacks and statistics — the tail of `run`
 
   After the breaker update and the cache store `run` logs the result (`_record_result`), bumps `_total_blocked`
@@ -566,19 +615,25 @@ def logCap : Nat := 1000
 inductive Delivery where
   | reply (r : Result)
   | hookRaised (r : Result)   -- the result was produced, logged, cached and handed to the callback — which raised
+  | printRaised (r : Result)  -- … and the callbacks returned; the console output (`silent=False`) failed to render
+                              --   the executor's payload of a SUCCESS
   | nothing                   -- `run` raised before a result existed
   deriving Repr, DecidableEq
 
-/-- the result a request produced, if the caller (`reply`) or a callback (`hookRaised`) got to see it -/
+/-- the result a request produced, if the caller (`reply`), a callback (`hookRaised`) or the audit log
+    (`printRaised`) got to see it -/
 def Delivery.seen : Delivery → Option Result
   | .reply r => some r
   | .hookRaised r => some r
+  | .printRaised r => some r
   | .nothing => none
 
 def logOne (t : Tally) : Tally := { t with requests := t.requests + 1, logged := min logCap (t.logged + 1) }
 
-/-- the tail of `run` for a request handled as `o` -/
-def deliver (hk : Hooks) (t : Tally) (o : Out) : Tally × Delivery :=
+/-- the tail of `run` for a request handled as `o`.  `printFails`: the console is on (`silent=False`) and the
+    executor's payload cannot be rendered — `_print_result` prints that payload for a SUCCESS, as the very last
+    statement of `run`. -/
+def deliver (hk : Hooks) (t : Tally) (o : Out) (printFails : Bool := false) : Tally × Delivery :=
   match o.kind, o.result with
   | .admin, _ => (t, .nothing)
   | .gated _, some r =>
@@ -590,8 +645,9 @@ def deliver (hk : Hooks) (t : Tally) (o : Out) : Tally × Delivery :=
       | .raises => ({ t1 with blocked := t1.blocked + 1, blockHookCalls := t1.blockHookCalls + 1 }, .hookRaised r)
     else
       match hk.onPermit with
-      | .unset => ({ t1 with permitted := t1.permitted + 1 }, .reply r)
-      | .ok => ({ t1 with permitted := t1.permitted + 1, permitHookCalls := t1.permitHookCalls + 1 }, .reply r)
+      | .unset => ({ t1 with permitted := t1.permitted + 1 }, if printFails then .printRaised r else .reply r)
+      | .ok => ({ t1 with permitted := t1.permitted + 1, permitHookCalls := t1.permitHookCalls + 1 },
+                if printFails then .printRaised r else .reply r)
       | .raises => ({ t1 with permitted := t1.permitted + 1, permitHookCalls := t1.permitHookCalls + 1 }, .hookRaised r)
   | .cacheHit, some r => ({ t with requests := t.requests + 1 }, .reply r)
   | _, some r => (logOne t, .reply r)          -- CIRCUIT_OPEN, ERROR after an agent exception: logged only
